@@ -10,7 +10,6 @@ import numpy as np
 import pandas as pd
 
 from dask.base import tokenize
-from dask.core import flatten
 from dask.dataframe._compat import (
     PANDAS_GE_220,
     PANDAS_GE_300,
@@ -1219,27 +1218,18 @@ def _unique_aggregate(series_gb, name=None):
 
 
 def _value_counts(x, **kwargs):
-    if not x.groups or all(
-        pd.isna(key) for key in flatten(x.groups.keys(), container=tuple)
-    ):
-        return pd.Series(dtype=int)
-    else:
-        return x.value_counts(**kwargs)
+    return x.value_counts(**kwargs)
 
 
-def _value_counts_aggregate(series_gb):
-    data = {k: v.groupby(level=-1).sum() for k, v in series_gb}
-    if not data:
-        data = [pd.Series(index=series_gb.obj.index[:0], dtype="float64")]
-    res = pd.concat(data, names=series_gb.obj.index.names)
-    typed_levels = {
-        i: res.index.levels[i].astype(series_gb.obj.index.levels[i].dtype)
-        for i in range(len(res.index.levels))
-    }
-    res.index = res.index.set_levels(
-        typed_levels.values(), level=typed_levels.keys(), verify_integrity=False
-    )
-    return res
+def _value_counts_aggregate(counts, sort=False):
+    # The concatenated chunks map (group keys..., value) to a count: add up the
+    # counts of equal entries. Missing keys / values that survived the chunk step
+    # were asked for (groupby(dropna=False) / value_counts(dropna=False)), and
+    # unobserved categories were already added by the chunk step.
+    # Unless sort=False was asked for, sort: this keeps the entries of a group together.
+    levels = list(range(counts.index.nlevels))
+    sort = sort is None or bool(sort)
+    return counts.groupby(level=levels, sort=sort, observed=True, dropna=False).sum()
 
 
 def _tail_chunk(series_gb, **kwargs):
